@@ -16,6 +16,7 @@ import json
 import os
 import shutil
 import subprocess
+import time
 
 import vlib
 
@@ -524,9 +525,13 @@ def probe_stub(chk, work, stats):
 # ------------------------------------------------------------------------------------------------ the check
 def run(chk):
     tier = chk.tier
+    phase = {}
+    t0 = time.time()
     failed = chk.prove("theories/Properties/C10.v")
+    phase["prove"] = round(time.time() - t0, 1); t0 = time.time()
     vlib.build_harness(["c10taint"])
     vlib.build_model("c10")
+    phase["build_harness_and_model"] = round(time.time() - t0, 1); t0 = time.time()
     work = os.path.join(vlib.BUILD, "c10")
     shutil.rmtree(work, ignore_errors=True)
     os.makedirs(work)
@@ -542,7 +547,9 @@ def run(chk):
         d = os.path.join(work, "b%03d" % (b // BATCH))
         p.finish(d)
         progs.append((d, p, units[b:b + BATCH]))
+    phase["generate_and_model"] = round(time.time() - t0, 1); t0 = time.time()
     res = run_taint([d for d, _, _ in progs], par=4 if tier == "quick" else 6, timeout=1500 if tier == "quick" else 7200)
+    phase["taint_runs"] = round(time.time() - t0, 1); t0 = time.time()
 
     stats = {"units": len(units), "programs": len(progs), "matrix_space_all_forms": space, "scenarios": 0, "sinks": 0,
              "flows_reported": 0, "spec_mismatch_units": 0, "model_mismatch_units": 0, "stray_flows": 0,
@@ -605,6 +612,8 @@ def run(chk):
 
     found_concrete = probe_impl_static(chk, work, stats) or found_concrete
     found_concrete = probe_stub(chk, work, stats) or found_concrete
+    phase["compare_and_probes"] = round(time.time() - t0, 1)
+    stats["phase_seconds"] = phase
 
     if tie_broken and not found_concrete:
         u, m, o, d = tie_broken[0]
